@@ -31,7 +31,7 @@ class Files(staticfiles.BaseFiles[ASGIApp]):
             response = Response(304)
         else:
             response = FileResponse(filepath, stat_result=stat_result)
-            self.set_response_headers(response)
+        self.set_response_headers(response)
         return response
 
     async def __call__(self, scope: Scope, receive: Receive, send: Send) -> None:
